@@ -476,9 +476,47 @@ func runC09(c *check, replay string) int {
 		m.classes["failures:"+k] += len(fs)
 		report(cs, p, "")
 	}
+	// 3. thorough: native coverage-guided fuzzing of an in-process replica of
+	// gocc's analysis pipeline; a hit counts only if the real binary reproduces it
+	if tier == "thorough" && code == 0 {
+		dir := prepareInproc(gocc)
+		o, err := run(dir, []string{"VERIF_REPO=" + repoDir}, "go", "test", "-run", "^$", "-fuzz", "^FuzzC09Pipeline$", "-fuzztime", "150s", ".")
+		m.classes["native_fuzz_campaigns"]++
+		if err != nil && strings.Contains(o, "Failing input written to") {
+			files, _ := filepath.Glob(filepath.Join(dir, "testdata", "fuzz", "FuzzC09Pipeline", "*"))
+			for _, ff := range files {
+				src := fuzzCorpusBytes(ff)
+				cs := c09Case{Arm: "F", Src: string(src), File: "g.bnf"}
+				if p := c09Check(env, mod, "fz", cs); p != "" {
+					report(cs, p, "")
+				} else {
+					m.notes = append(m.notes, "native fuzzing reported a slow input that the real binary handles within its CPU limit (inconclusive, not a violation)")
+				}
+			}
+		} else if err != nil {
+			m.notes = append(m.notes, "native fuzzing ended abnormally (inconclusive): "+lastLines(o, 3))
+		}
+	}
 	c.rule = c09Rule
 	writeEvidence(c, m, nviol)
 	return code
+}
+
+// fuzzCorpusBytes decodes a go-fuzz corpus file holding one []byte value.
+func fuzzCorpusBytes(path string) []byte {
+	b, err := os.ReadFile(path)
+	if err != nil {
+		return nil
+	}
+	for _, l := range strings.Split(string(b), "\n") {
+		l = strings.TrimSpace(l)
+		if strings.HasPrefix(l, "[]byte(") && strings.HasSuffix(l, ")") {
+			if s, err := strconv.Unquote(l[len("[]byte(") : len(l)-1]); err == nil {
+				return []byte(s)
+			}
+		}
+	}
+	return nil
 }
 
 var sigFileRe = regexp.MustCompile(`([a-z]+\.go):\d+:\d+: (.*)`)
